@@ -120,3 +120,29 @@ def check_heuristics(ctx, rule: str, only_attrs=None, only_classes=None, only_fu
             continue
         ctx.bad(rule, k, where, msg)
     return n
+
+
+def check_converted_then_guessed(ctx, rule: str, only_attrs=None) -> int:
+    """A heuristic site guesses the unit of X from its magnitude.  If the same function also stores into X a number that was
+    explicitly converted (`....to('m').magnitude`, `.quantity()`), that number is in a known unit and the guess rescales it again."""
+    n = 0
+    for f, node, d, ths, (st, how), key in heuristic_sites(ctx.repo):
+        if only_attrs is not None and d.attr not in only_attrs:
+            continue
+        n += 1
+        obj = key[:-len('.value')]
+        conv = []
+        for s_ in ast.walk(f.node):
+            if isinstance(s_, ast.Assign):
+                tg = s_.targets[0]
+                base = tg.value if isinstance(tg, ast.Subscript) else tg
+                if norm(base) == key and s_ is not st and s_.lineno < node.lineno and \
+                        any(isinstance(c, ast.Call) and isinstance(c.func, ast.Attribute) and c.func.attr in ('to', 'quantity', 'ito') for c in ast.walk(s_.value)):
+                    conv.append(s_)
+        k = f'{f.qualname}/{d.attr}/converted-value-not-re-guessed'
+        where = f'{f.module.rel}:{(conv[0] if conv else node).lineno}'
+        ctx.check(not conv, rule, k, where,
+                  f'`{norm(conv[0])[:90] if conv else ""}` stores an explicitly converted number into {obj}, and the magnitude heuristic at line '
+                  f'{node.lineno} ({how}) later rescales whatever is below/above its threshold: a value in the known unit is converted twice',
+                  fact='only unconverted input numbers reach the heuristic')
+    return n
